@@ -44,8 +44,11 @@ type Case struct {
 	Where  string `json:"where,omitempty"`
 	// funcs, long-line family: the case is rebuilt from these
 	Long *longCase `json:"long_line,omitempty"`
+	// funcs, names family: the case is rebuilt from these
+	Names *namesCase `json:"names,omitempty"`
 	// cli: the case is rebuilt from these
-	Cli *cliCase `json:"cli,omitempty"`
+	Cli      *cliCase      `json:"cli,omitempty"`
+	CliNames *cliNamesCase `json:"cli_names,omitempty"`
 }
 
 func q(s string) string { return strconv.Quote(s) }
@@ -172,8 +175,13 @@ func worker(w *runner.W) {
 	if only == "long" { // diagnosis: the long-line family alone
 		e.longPhase(&unit)
 	}
+	if only == "names" { // diagnosis: the names family alone (in-process and cli)
+		e.namesPhase(&unit)
+		e.cliNamesPhase(&unit)
+	}
 	if only == "" || only == "funcs" || only == "cli" {
 		e.cliPhase(&unit)
+		e.cliNamesPhase(&unit)
 	}
 	if only == "" || only == "opt" || strings.Contains(only, "/") {
 		e.optPhase(&unit, only)
@@ -226,7 +234,7 @@ func main() {
 				"(all-empty = what the optimiser probes with, numeric, huge, odd bytes, two real SliceSpaceExpressionContexts; fewer for constant-only programs, see exprgen.Plan); oracle: byte-equal results. " +
 				"(i-time) " + strconv.Itoa(len(timeTemplates())) + " templates around {time live}/{time delta} (bare, nested in helpers, behind a funcs-file function) compiled, then evaluated after the wall clock advanced by >= 2 s: live must lie between the clock readings taken around the evaluation, delta between the elapsed bounds (a frozen value cannot). " +
 				"(ii) funcs files: " + funcsRule(tier) + ". " +
-				"(ii-cli) funcs files through the start-up sequence of " + cliRule(tier) + ". " +
+				"(ii-cli) funcs files through the start-up sequence of " + cliRule(tier) + "; " + cliNamesRule(tier) + ". " +
 				"non-trivial = both builds compiled without error and at least one context was compared (for funcs: the definition loaded and the inlined body compiled; for cli: both processes exited with success); an outcome is (part, function or body, results)"
 		},
 		Assumptions: func(string) []string {
@@ -237,6 +245,7 @@ func main() {
 				"templates that read the clock ({time now|live|delta}) are compiled and evaluated again until both builds ran within one wall-clock second; the clock itself is only read to bracket, never to decide",
 				"funcs files: one space between name and body, no '#' or backslash inside a body, lines are broken only at argument separators (the documentation does not say how other whitespace around a continuation is joined); zero-argument call sites are key lookups and are not generated; a definition that LoadDefinitions rejects even when written on one line is not compared",
 				"long-line family: neither the statement nor docs/usage/funcsfile.md bounds the length of a line of a funcs file, so every definition of a generated file whose body compiles inline is expected to be loaded under its own name whatever the length of its physical lines (up to the largest size of the tier); lines end in \\n (no \\r\\n); the one-definition-per-line reference of the other funcs cases does not apply (it would itself be a long line)",
+				"names family (in-process and through the binary): where the statement is silent every reading is accepted, but ONE reading must explain the whole case (the set of loaded names and every call site): (a) a name used inside a body means what it meant when the definition was read (the unchanged tree: an earlier definition calling a name that a later line defines calls the built-in of that name, or is rejected when there is none) or what it means once all files are loaded; (b) of two definitions of one name the last or the first counts. No reading lets a built-in win over a loaded function of the same name, on the command line or in a later definition (the statement makes no exception for such names). The definitions of a file call the name with one argument where the built-in of that name takes one or wants a constant second one (so that the forward reference is accepted); a definition whose body, inlined down to built-ins, the built-in table refuses is expected not to load; defined names contain no blank, '#', quote or brace; a call site whose inlined form cannot be written (text as an argument) or is refused by the built-in table is not compared",
 				"cli part: the rare binary is built once per run by this harness (`go build -o <tmp>/rare .` in $VERIF_REPO, default /repo; a failed build is a harness error) and removed afterwards; every process gets an explicit environment (PATH, HOME=<scratch>, TZ=UTC, GOMAXPROCS=1, LANG=C and RARE_FUNC_FILES only when that is the delivery) and pipes for stdout/stderr, so colour is off unless --color is given (the terminal default, colour on, is not reachable without a pty); standard error (log lines of rejected definitions, compile errors) is not compared, only stdout and exit success; a process that has not exited after 60 s is reported as a hang",
 				"part (iii) of the statement (concurrent evaluators) is not covered here",
 				"in-process parts: process globals pinned: TZ=UTC, color.Enabled=true, humanize.Enabled=true, termunicode.UnicodeEnabled=true, stdlib.DisableLoad=false, funclib.Additional emptied after every funcs case",
